@@ -137,7 +137,11 @@ func VerifC05Reassembly() {
 	for _, f := range fs {
 		want = append(want, f.body...)
 	}
-	seg := vrt_Choose("segmentation", 3) // 0: one packet per read, 1: all coalesced, 2: every packet split over two reads
+	segKinds := 3
+	if n >= 4 {
+		segKinds = 2 // four packets: whole or coalesced only (splitting every packet three ways does not finish)
+	}
+	seg := vrt_Choose("segmentation", segKinds) // 0: one packet per read, 1: all coalesced, 2: every packet split over two reads
 	coalesced := seg == 1
 	r := vNewReader()
 	completes := 0
